@@ -12,7 +12,59 @@ ASSUMPTIONS = c04.ASSUMPTIONS
 TRUSTED = c04.TRUSTED
 
 
+def nested_sessions(args):
+    """(child) a filler that is still open (one example written, no shard closed yet) while another complete session —
+    a sub-directory filler, then a multi-writer call — is committed on the same handle; then it is closed."""
+    from pathlib import Path
+    import shutil
+    from harness.core import sp
+    from harness.checks import tree_common as T
+    sp.sedpack()
+    from sedpack.io import Dataset
+    from sedpack.io.dataset_filler import DatasetFiller
+    out = []
+    for a in args:
+        root = Path(a["root"]); shutil.rmtree(root, ignore_errors=True)
+        ds = sp.mk(root, fmt=a["fmt"], eps=a["eps"])
+        want = []
+        try:
+            with ds.filler() as f0:
+                for v in range(3):
+                    f0.write_example(values=sp.val(v), split="train"); want.append(v)
+            outer = ds.filler()
+            octx = outer.__enter__()
+            try:
+                octx.write_example(values=sp.val(100), split="train"); want.append(100)
+                with DatasetFiller(ds, relative_path_from_split=Path("a")) as g:
+                    for v in range(200, 200 + a["eps"] + 1):
+                        g.write_example(values=sp.val(v), split="train"); want.append(v)
+                if a["multi"]:
+                    def feed(filler, lo):
+                        with filler as f:
+                            f.write_example(values=sp.val(lo), split="train")
+                        return lo
+                    ds.write_multiprocessing(feed_writer=feed, custom_arguments=[(300,), (301,)], single_process=True, consistency_check=False)
+                    want += [300, 301]
+                octx.write_example(values=sp.val(101), split="train"); want.append(101)
+            finally:
+                outer.__exit__(None, None, None)
+            problems, per_split = T.recount(root)
+            got = sp.read_ids(Dataset(root), "train")
+            out.append({"case": {k: a[k] for k in a if k != "root"}, "want": sorted(want), "got": sorted(got), "problems": problems[:4]})
+        except Exception as e:  # noqa: BLE001
+            out.append({"case": {k: a[k] for k in a if k != "root"}, "want": sorted(want), "error": f"{type(e).__name__}: {str(e)[:200]}"})
+        shutil.rmtree(root, ignore_errors=True)
+    return out
+
+
 def run(ctx):
+    nest = child.call("harness.checks.c08", "nested_sessions",
+                      [{"root": str(ctx.scratch / f"c08n_{i}"), "fmt": ["fb", "npz", "tfrec"][i % 3], "eps": 1 + i % 3, "multi": bool(i % 2)} for i in range(ctx.pick(3, 9))], timeout=900)
+    for r in nest:
+        if r.get("error") or r["got"] != r["want"] or r["problems"]:
+            ctx.report({"kind": "append-only", "nested_in_time": True},
+                       f"a filler left open around another completed session: {r.get('error') or ''} read back {r.get('got')} instead of {r['want']} {r.get('problems') or ''}",
+                       {"case": r["case"], "result": r})
     cases = c04.gen(ctx, "c08")
     results = []
     for i in range(0, len(cases), 10):
